@@ -47,6 +47,12 @@ def boundary_input(table, n):
         return "SCHEMA b;\nFUNCTION f(p : INTEGER) : INTEGER;\n  LOCAL\n    v : INTEGER := 0;\n  END_LOCAL;\n" + body + "  RETURN (v);\nEND_FUNCTION;\nEND_SCHEMA;\n"
     if table == "paren_depth":
         return "SCHEMA b;\nENTITY e;\n  a : INTEGER;\nWHERE\n  w : " + "(" * n + "a" + ")" * n + " > 0;\nEND_ENTITY;\nEND_SCHEMA;\n"
+    if table in ("rel_depth", "failed_rel_depth"):
+        leaf = "a" if table == "rel_depth" else "nosuch_leaf"
+        ex = "(%s = 1)" % leaf
+        for k in range(n - 1):
+            ex = "(%s = (1 = 1))" % ex if k % 2 else "(%s <> FALSE)" % ex
+        return head[:-len("END_ENTITY;")] + "DERIVE\n  d : BOOLEAN := %s;\nEND_ENTITY;\nEND_SCHEMA;\n" % ex
     if table == "attr_count":
         return "SCHEMA b;\nENTITY e;\n" + "".join("  a%d : INTEGER;\n" % i for i in range(n)) + "END_ENTITY;\nEND_SCHEMA;\n"
     if table.startswith("degenerate:"):
